@@ -578,6 +578,36 @@ def gen_omen_facts(root, report):
     if k is None:
         raise TranslateError('_calc_level: no floor statement')
     tail = [' '.join(ast.unparse(st).split()) for st in stmts[k + 1:]]
+
+    # the tail translated statement by statement into a Lean function of (level, max_level): assignments to `level`, `if` / `elif` /
+    # `else` over comparisons of names and integer literals, `return` - whatever shape the clamp is written in
+    def t_expr(e):
+        if isinstance(e, ast.Name) and e.id in ('level', 'max_level'):
+            return 'level' if e.id == 'level' else 'maxLevel'
+        if isinstance(e, ast.Constant) and type(e.value) is int:
+            return f'({e.value} : Int)'
+        raise TranslateError('_calc_level tail: unsupported expression ' + ast.unparse(e))
+
+    def t_cond(c):
+        ops_ = {ast.Gt: '>', ast.Lt: '<', ast.GtE: '≥', ast.LtE: '≤', ast.Eq: '='}
+        if isinstance(c, ast.Compare) and len(c.ops) == 1 and type(c.ops[0]) in ops_:
+            return f'{t_expr(c.left)} {ops_[type(c.ops[0])]} {t_expr(c.comparators[0])}'
+        raise TranslateError('_calc_level tail: unsupported condition ' + ast.unparse(c))
+
+    def t_block(sts):
+        if not sts:
+            raise TranslateError('_calc_level tail: falls off the end without a return')
+        st, rest = sts[0], sts[1:]
+        if isinstance(st, ast.Return) and st.value is not None:
+            return t_expr(st.value)
+        if isinstance(st, ast.Assign) and len(st.targets) == 1 and isinstance(st.targets[0], ast.Name) and st.targets[0].id == 'level':
+            return f'(let level : Int := {t_expr(st.value)}; {t_block(rest)})'
+        if isinstance(st, ast.If):
+            return f'(if {t_cond(st.test)} then {t_block(list(st.body) + rest)} else {t_block(list(st.orelse) + rest)})'
+        if isinstance(st, ast.Pass):
+            return t_block(rest)
+        raise TranslateError('_calc_level tail: unsupported statement ' + ast.unparse(st).split('\n')[0])
+    clamp_lean = t_block(stmts[k + 1:])
     defaults = dict(zip([a.arg for a in cl.args.args][len(cl.args.args) - len(cl.args.defaults):], [ast.unparse(d) for d in cl.args.defaults]))
     report['calc_level_tail'] = tail
     calc_tail = ', '.join(lean_str(t) for t in tail)
@@ -597,6 +627,10 @@ def optimizerSites : List (String × String × String) :=
 def calcLevelTail : List String := [{calc_tail}]
 
 def calcLevelMaxDefault : String := {lean_str(defaults.get('max_level', '?'))}
+
+/-- the same statements as a function: the value `_calc_level` returns when the floor of the logarithm is `level` -/
+def calcLevelClamp (level maxLevel : Int) : Int :=
+  {clamp_lean}
 
 end Pcfg.Generated.OmenFacts
 '''
